@@ -180,6 +180,17 @@ def _inputs():
     add("modularity_probtune_und_sign", mod, (Fu8,), (Su9,), {}, dict(p=0.6, ci=ci9), group="modularity")
     add("core_periphery_dir", cor, (R8,), (C8,), group="other")
     add("consensus_und", clu, (P10, 0.3, 3), (P9, 0.4, 2), group="other", slow=True)
+    # input bank: ambiguous agreement matrices for which the first round of `reps` partitions is
+    # usually not unanimous, so that the re-clustering loop runs more than once (a stream that is
+    # re-created per round only shows there).  Every history draws its two inputs from the bank.
+    rb = np.random.RandomState(20260926)
+    for _ in range(14):
+        nb = int(rb.choice([8, 10, 12]))
+        Db = rb.random_sample((nb, nb))
+        Db = np.round((Db + Db.T) / 2, 3)
+        np.fill_diagonal(Db, 0)
+        t["consensus_und"]["args"].append((Db, float(rb.choice([0.3, 0.4, 0.5])), int(rb.choice([4, 6, 10]))))
+        t["consensus_und"]["kwargs"].append({})
     add("rentian_scaling", phy, (U12, xyz12, 4), (U11, xyz11, 3), group="other")
     add("nbs_bct", "bct.nbs", (x6, y6, 2.0), (x7, y7, 1.5), dict(k=3), dict(k=2, tail="left"),
         group="nbs", slow=True)
@@ -424,9 +435,10 @@ def make_job(rng, name, k, program, kind="hist"):
                 and not (st[0] == "call" and st[3] == "none")}
         if uses == {"int"} and rng.random() < 0.25:
             s[t - 1] = rng.choice(EXOTIC_SEEDS)
-    a1, a2 = [0, 1], [0, 1]
-    rng.shuffle(a1)
-    rng.shuffle(a2)
+    ins = _inputs()
+    a1 = rng.sample(range(len(ins[name]["args"])), 2)          # two inputs from the routine's bank
+    pn = partner_of(name, k)
+    a2 = rng.sample(range(len(ins[pn]["args"])), 2)
     return dict(fn=name, partner=partner_of(name, k), program=program, amap={"1": a1, "2": a2},
                 seeds=s, boot=rng.randrange(2 ** 31), kind=kind, focus="all")
 
@@ -449,6 +461,18 @@ def build_jobs(ctx, short, longs, len4=()):
             progs = rng.sample(progs, cap[name])
         for p in progs:
             jobs.append(make_job(rng, name, k, p))
+        # routines with an input bank: the shortest program that relates an integer seed to the
+        # RandomState of that integer, on every bank input with several seeds (a stream re-created
+        # inside a loop shows only on inputs that make the loop run more than once)
+        nbank = len(_inputs()[name]["args"])
+        if nbank > 2:
+            pair = [["call", 1, 1, "int", 1], ["call", 1, 1, "RandomState", 1], ["call", 1, 1, "int", 1]]
+            for b in range(nbank):
+                for _rep in range(4 if ctx.quick else 12):
+                    j = make_job(rng, name, k, pair)
+                    j["amap"]["1"] = [b, (b + 1) % nbank]
+                    j["seeds"] = [rng.randrange(2 ** 31), rng.randrange(1000)]
+                    jobs.append(j)
         jobs.append(make_job(rng, name, k, REC_PROGRAM, kind="rec"))
     return jobs
 
